@@ -194,7 +194,40 @@ def parse_search(resp):
     return None
 
 
-async def setup(hidden_expunge=False):
+def random_corpus(rnd):
+    """a mailbox of 3..8 randomly generated messages: flags, sizes around the SMALLER/LARGER thresholds, internal and sent
+    dates around the searched days at any time of day and in any zone, header and body text from pools that contain the
+    searched strings in several letter cases"""
+    days = [(31, 'Dec', 2019), (1, 'Jan', 2020), (2, 'Jan', 2020), (14, 'Feb', 2020), (15, 'Feb', 2020), (16, 'Feb', 2020),
+            (1, 'Mar', 2020), (2, 'Mar', 2020), (3, 'Mar', 2020)]
+    wd = {(31, 'Dec'): 'Tue', (1, 'Jan'): 'Wed', (2, 'Jan'): 'Thu', (14, 'Feb'): 'Fri', (15, 'Feb'): 'Sat', (16, 'Feb'): 'Sun',
+          (1, 'Mar'): 'Sun', (2, 'Mar'): 'Mon', (3, 'Mar'): 'Tue'}
+    addrs = ['alice@example.com', 'bob@example.com', 'carol@example.org', 'Needle@Example.COM', 'zed@zzz.net', 'fox@den.org', '']
+    words = ['hello world', 'Re: HELLO again', 'needle in subject', '', 'Quick question', 'FOX', 'nothing here', 'zzz']
+    bodies = ['the quick brown fox\r\n', 'NEEDLE\r\n', 'plain\r\n', '', 'hello example.com\r\n']
+
+    def when():
+        d, mon, y = rnd.choice(days)
+        hh, mm = rnd.choice([(0, 5), (0, 30), (1, 59), (12, 0), (22, 1), (23, 30), (23, 59)])
+        zone = rnd.choice(['+0000', '+0200', '-0500', '+1400', '-1200', '+0530', '-0330'])
+        return d, mon, y, hh, mm, zone
+    out = []
+    for _ in range(rnd.randint(3, 8)):
+        d, mon, y, hh, mm, zone = when()
+        idate = f'{d:02d}-{mon}-{y} {hh:02d}:{mm:02d}:00 {zone}'
+        d, mon, y, hh, mm, zone = when()
+        sent = f'{wd[(d, mon)]}, {d:02d} {mon} {y} {hh:02d}:{mm:02d}:00 {zone}'
+        body = rnd.choice(bodies) + 'x' * rnd.choice([0, 0, 40, 400, 900])
+        out.append(dict(flags=sorted(rnd.sample([b'\\Seen', b'\\Flagged', b'\\Answered', b'\\Deleted', b'\\Draft'],
+                                                rnd.randint(0, 3))),
+                        idate=idate, sent=sent, frm=rnd.choice(addrs[:6]), to=rnd.choice(addrs[:6]), cc=rnd.choice(addrs),
+                        bcc=rnd.choice(addrs), subject=rnd.choice(words), xh=rnd.choice(['', 'one', 'three needle', 'HELLO']),
+                        body=body))
+    return out
+
+
+async def setup(hidden_expunge=False, msgs=None):
+    MSGS = msgs if msgs is not None else globals()['MSGS']
     w = await World().start()
     c = await w.client('c')
     await c.cmd(b'CREATE Box')
@@ -215,9 +248,9 @@ async def setup(hidden_expunge=False):
     return w, c, view
 
 
-async def run_batch(programs, hidden):
+async def run_batch(programs, hidden, msgs=None):
     errors = []
-    w, c, view = await setup(hidden)
+    w, c, view = await setup(hidden, msgs)
     sigs = []
     for prog in programs:
         text = ' '.join(wire(k) for k in prog)
@@ -247,9 +280,14 @@ async def run_batch(programs, hidden):
 
 
 def _worker(args):
-    progs, hidden = args
+    progs, hidden = args[0], args[1]
+    msgs = args[2] if len(args) > 2 else None
     try:
-        errs, sigs = run(run_batch(progs, hidden))
+        errs, sigs = run(run_batch(progs, hidden, msgs))
+        if msgs is not None:
+            errs = [(p, e + f'  [mailbox: {[(m["flags"], m["idate"], m["sent"], m["frm"], m["subject"]) for m in msgs]}]')
+                    for p, e in errs]
+            sigs = [(s[0] + ' @' + str(hash(str(msgs)) % 10007), s[1]) for s in sigs]
     except Exception as exc:    # noqa
         import traceback
         return [(progs[0], f'harness exception {exc!r} {traceback.format_exc()[-400:]}')], []
@@ -302,6 +340,14 @@ def bounded_search(label):
         chunks = [(progs[i:i + 40], False) for i in range(0, len(progs), 40)]
         hp = [p for p in progs if len(p) == 1][:160]
         chunks += [(hp[i:i + 40], True) for i in range(0, len(hp), 40)]
+        # randomly generated mailboxes (seeded): every leaf key and its negation plus a sample of composite programs on each
+        import random
+        rnd = random.Random(seed + 7)
+        leaves = [p for p in progs if len(p) == 1]
+        for _ in range(6 if tier == 'quick' else 80):
+            corpus = random_corpus(rnd)
+            sample = leaves[:] + rnd.sample(progs, 120 if tier == 'quick' else 400)
+            chunks += [(sample[i:i + 80], False, corpus) for i in range(0, len(sample), 80)]
         with mp.get_context('fork').Pool(16) as pool:
             for errs, sigs in pool.imap_unordered(_worker, chunks):
                 res.evaluations += len(sigs)
